@@ -36,7 +36,7 @@ def expected_defs(dep, d):
         inst = dep.instance(d, g, v)
         children = []
         for e in v["elements"]:
-            if not e["enabled"]:
+            if not dep.element_enabled(d, g, v, e):
                 continue
             el = getattr(inst, e["attr"])
             children.append({"name": e["name"], "label": e.get("label") or e["name"], "value": el._value, "spec": e})
@@ -253,7 +253,7 @@ request_st = st.fixed_dictionaries({"dev": st.sampled_from([-1, -2, 0, 1, 2, 0])
 case_st = st.fixed_dictionaries(
     {
         "devices": drivers.deployment(max_devices=3).filter(lambda specs: all(drivers.spec_size_ok(s) for s in specs)),
-        "ops": st.lists(drivers.driver_op(), max_size=15),
+        "ops": st.lists(drivers.driver_op() | st.fixed_dictionaries({"op": st.just("eenable"), "d": st.integers(0, 11), "v": st.integers(0, 11), "e": st.integers(0, 11), "on": st.booleans()}), max_size=15),
         "req": request_st,
     }
 )
